@@ -42,6 +42,7 @@ var (
 	th     *core.Thread
 	counts = map[string]int{}
 	tzRun  = 0
+	zone   = "" // TZ of a tz run (replay needs it)
 )
 
 type dt [7]int  // year, month, day, hour, minute, second, millisecond
@@ -80,6 +81,9 @@ func guard(f func()) (p string) {
 
 func eval(src string) (v core.Value, p string) {
 	p = guard(func() { v = compile.EvalString(th, src) })
+	if p != "" {
+		th.Reset() // an exception leaves frames on the thread's stack
+	}
 	return
 }
 
@@ -207,7 +211,7 @@ func emitPlus(tr *vh.Trace, via int, d dt, o off) {
 	sd := mk(d)
 	if sd == core.NilDate {
 		// the input itself is refused by the real code (only seen for the local time zone finding)
-		tr.Emit(vh.E("Plus", "via", via, "tz", tzRun, "d", d.sl(), "o", lo, "xd", xd, "xu", xu, "ok", 0,
+		tr.Emit(vh.E("Plus", "via", via, "tz", tzRun, "zn", zone, "d", d.sl(), "o", lo, "xd", xd, "xu", xu, "ok", 0,
 			"r", []int{}, "md", 0, "mq", 0, "mr", 0, "cmp", 0))
 		counts["Plus"]++
 		return
@@ -236,7 +240,7 @@ func emitPlus(tr *vh.Trace, via int, d dt, o off) {
 		}
 	}
 	if ok == 0 {
-		tr.Emit(vh.E("Plus", "via", via, "tz", tzRun, "d", d.sl(), "o", lo, "xd", xd, "xu", xu, "ok", 0,
+		tr.Emit(vh.E("Plus", "via", via, "tz", tzRun, "zn", zone, "d", d.sl(), "o", lo, "xd", xd, "xu", xu, "ok", 0,
 			"r", []int{}, "md", 0, "mq", 0, "mr", 0, "cmp", 0))
 		counts["Plus"]++
 		return
@@ -245,7 +249,7 @@ func emitPlus(tr *vh.Trace, via int, d dt, o off) {
 	if dok == 0 {
 		md, mq, mr, cmp = -999999, -999999, -1, 9 // a difference of two dates must not fail
 	}
-	tr.Emit(vh.E("Plus", "via", via, "tz", tzRun, "d", d.sl(), "o", lo, "xd", xd, "xu", xu, "ok", 1,
+	tr.Emit(vh.E("Plus", "via", via, "tz", tzRun, "zn", zone, "d", d.sl(), "o", lo, "xd", xd, "xu", xu, "ok", 1,
 		"r", fields(r), "md", md, "mq", mq, "mr", mr, "cmp", cmp))
 	counts["Plus"]++
 }
@@ -253,12 +257,12 @@ func emitPlus(tr *vh.Trace, via int, d dt, o off) {
 func emitDiff(tr *vh.Trace, via int, a, b dt) {
 	sa, sb := mk(a), mk(b)
 	if sa == core.NilDate || sb == core.NilDate {
-		tr.Emit(vh.E("Diff", "via", via, "tz", tzRun, "a", a.sl(), "b", b.sl(), "ok", 0, "md", 0, "mq", 0, "mr", 0, "cmp", 0))
+		tr.Emit(vh.E("Diff", "via", via, "tz", tzRun, "zn", zone, "a", a.sl(), "b", b.sl(), "ok", 0, "md", 0, "mq", 0, "mr", 0, "cmp", 0))
 		counts["Diff"]++
 		return
 	}
 	ok, md, mq, mr, cmp := diff(via, sa, sb)
-	tr.Emit(vh.E("Diff", "via", via, "tz", tzRun, "a", a.sl(), "b", b.sl(), "ok", ok, "md", md, "mq", mq, "mr", mr, "cmp", cmp))
+	tr.Emit(vh.E("Diff", "via", via, "tz", tzRun, "zn", zone, "a", a.sl(), "b", b.sl(), "ok", ok, "md", md, "mq", mq, "mr", mr, "cmp", cmp))
 	counts["Diff"]++
 }
 
@@ -266,7 +270,7 @@ func emitDiff(tr *vh.Trace, via int, a, b dt) {
 func emitLit(tr *vh.Trace, via int, d dt) {
 	sd := mk(d)
 	if sd == core.NilDate {
-		tr.Emit(vh.E("Lit", "via", via, "tz", tzRun, "d", d.sl(), "s", []int{}, "ok", 0, "p", []int{}))
+		tr.Emit(vh.E("Lit", "via", via, "tz", tzRun, "zn", zone, "d", d.sl(), "s", []int{}, "ok", 0, "p", []int{}))
 		counts["Lit"]++
 		return
 	}
@@ -285,9 +289,9 @@ func emitLit(tr *vh.Trace, via int, d dt) {
 		back, _ = eval(s)
 	}
 	if bd, isDate := back.(core.SuDate); isDate && bd != core.NilDate {
-		tr.Emit(vh.E("Lit", "via", via, "tz", tzRun, "d", d.sl(), "s", ints(s), "ok", 1, "p", fields(bd)))
+		tr.Emit(vh.E("Lit", "via", via, "tz", tzRun, "zn", zone, "d", d.sl(), "s", ints(s), "ok", 1, "p", fields(bd)))
 	} else {
-		tr.Emit(vh.E("Lit", "via", via, "tz", tzRun, "d", d.sl(), "s", ints(s), "ok", 0, "p", []int{}))
+		tr.Emit(vh.E("Lit", "via", via, "tz", tzRun, "zn", zone, "d", d.sl(), "s", ints(s), "ok", 0, "p", []int{}))
 	}
 	counts["Lit"]++
 }
@@ -305,9 +309,9 @@ func emitParse(tr *vh.Trace, via int, s string) {
 		v, _ = eval("Date('" + s + "')") // Date(string) with a literal
 	}
 	if d, isDate := v.(core.SuDate); isDate && d != core.NilDate {
-		tr.Emit(vh.E("Parse", "via", via, "tz", tzRun, "s", ints(s), "ok", 1, "p", fields(d)))
+		tr.Emit(vh.E("Parse", "via", via, "tz", tzRun, "zn", zone, "s", ints(s), "ok", 1, "p", fields(d)))
 	} else {
-		tr.Emit(vh.E("Parse", "via", via, "tz", tzRun, "s", ints(s), "ok", 0, "p", []int{}))
+		tr.Emit(vh.E("Parse", "via", via, "tz", tzRun, "zn", zone, "s", ints(s), "ok", 0, "p", []int{}))
 	}
 	counts["Parse"]++
 }
@@ -494,7 +498,9 @@ func run(outdir string, scale int) {
 		d := withTime(g, t)
 		d0 := withTime(g, gridTimes[0])
 		for m := -25; m <= 25; m++ {
-			emitPlus(tr, via(), d0, one(1, m))
+			if scale >= 4 || g[2] >= 29 || (m+25+gi+seed)%3 == 0 {
+				emitPlus(tr, via(), d0, one(1, m))
+			}
 		}
 		for _, y := range sample(offYears, 2*nOther) {
 			emitPlus(tr, via(), d0, one(0, y))
@@ -572,32 +578,40 @@ func run(outdir string, scale int) {
 		}
 		emitParse(tr, rnd.Intn(3), literalForms(d)[rnd.Intn(4)])
 	}
-	tr.Close()
 
-	// 3. millisecond offsets beyond 32 bits, up to the whole supported range
-	// (kept in a file of its own: validated separately)
+	// 3. millisecond offsets beyond 32 bits (split into days + ms by the driver), up to
+	// the whole supported range. Offsets of more than 9.2e12 ms (292 years) go to a file
+	// of their own, validated separately.
 	tb := vh.Create(filepath.Join(outdir, "bigms.ndjson"))
+	const safe = 9200000000000
 	steps := []int64{2147483648, 4294967296, 86400000000, 1000000000000, 9000000000000, 9223372036854,
 		9223372036855, 9300000000000, 10000000000000, 20000000000000, 40000000000000}
 	for _, ms := range steps {
-		emitPlus(tb, 0, dt{1700, 1, 1, 0, 0, 0, 0}, one(6, int(ms)))
-		emitPlus(tb, 1, dt{1700, 1, 1, 0, 0, 0, 0}, one(6, int(ms)))
-		emitPlus(tb, 0, dt{2999, 12, 31, 23, 59, 59, 999}, one(6, int(-ms)))
-		emitPlus(tb, 1, dt{2999, 12, 31, 23, 59, 59, 999}, one(6, int(-ms)))
+		t := tr
+		if ms > safe {
+			t = tb
+		}
+		emitPlus(t, 0, dt{1700, 1, 1, 0, 0, 0, 0}, one(6, int(ms)))
+		emitPlus(t, 1, dt{1700, 1, 1, 0, 0, 0, 0}, one(6, int(ms)))
+		emitPlus(t, 0, dt{2999, 12, 31, 23, 59, 59, 999}, one(6, int(-ms)))
+		emitPlus(t, 1, dt{2999, 12, 31, 23, 59, 59, 999}, one(6, int(-ms)))
 	}
 	for i := 0; i < 100*scale; i++ {
 		d := randDate()
+		t := tr
 		var ms int64
 		if rnd.Intn(2) == 0 {
-			ms = 2000000001 + rnd.Int63n(9000000000000)
+			ms = 2000000001 + rnd.Int63n(safe-2000000001)
 		} else {
-			ms = 2000000001 + rnd.Int63n(41000000000000)
+			ms = safe + 1 + rnd.Int63n(41000000000000-safe)
+			t = tb
 		}
 		if d[0] > 2350 {
 			ms = -ms
 		}
-		emitPlus(tb, via(), d, one(6, int(ms)))
+		emitPlus(t, via(), d, one(6, int(ms)))
 	}
+	tr.Close()
 	tb.Close()
 	summary()
 }
@@ -631,6 +645,10 @@ func summary() {
 // neighbours, and additions that land on them.
 func tz(out string) {
 	tzRun = 1
+	zone = os.Getenv("TZ")
+	if time.Local.String() != zone {
+		vh.Fatal("time zone %q not loaded (local = %s)", zone, time.Local)
+	}
 	tr := vh.Create(out)
 	loc := time.Local
 	var days []dt
@@ -734,6 +752,10 @@ func replay(in, out string) {
 			vh.Fatal("replay: bad line: %v", err)
 		}
 		tzRun = geti(m, "tz")
+		zone, _ = m["zn"].(string)
+		if tzRun == 1 && time.Local.String() != zone {
+			vh.Fatal("replay of a line recorded with TZ=%s needs that TZ (local = %s)", zone, time.Local)
+		}
 		switch m["e"] {
 		case "Reset":
 			tr.Reset()
